@@ -6,6 +6,15 @@ def _fn(mods, mod, qual):
     return mods[mod].find(qual)
 
 
+def _loggers(tree):
+    """module-level names bound (once) to logging.getLogger(...)"""
+    out = set()
+    for n in tree.body:
+        if isinstance(n, ast.Assign) and isinstance(n.value, ast.Call) and ast.unparse(n.value.func) == 'logging.getLogger':
+            out |= {t.id for t in n.targets if isinstance(t, ast.Name)}
+    return out
+
+
 def _uses(node, name):
     out = []
     for x in ast.walk(node):
@@ -46,7 +55,12 @@ def prune_flag_independence(target):
                 ok = False
                 while node in parents:
                     par = parents[node]
-                    if isinstance(par, ast.Call) and (node in par.args or any(k.value is node for k in par.keywords)):
+                    if isinstance(par, ast.Call) and isinstance(par.func, ast.Attribute) and isinstance(par.func.value, ast.Name) \
+                            and (par.func.value.id == 'logging' or par.func.value.id in _loggers(mods['tad'].tree)) \
+                            and par.func.attr in ('debug', 'info', 'warning', 'error', 'critical', 'log', 'exception') and isinstance(parents.get(par), ast.Expr):
+                        ok = True       # the flag is only written to the log: no influence on any value
+                        break
+                    if isinstance(par, ast.Call) and (node in par.args or any(k.value is node or k is node for k in par.keywords)):
                         f = par.func
                         nm = f.attr if isinstance(f, ast.Attribute) else getattr(f, 'id', '')
                         if nm in ('solve_reachability', 'value_iteration_reachability'):
